@@ -17,8 +17,8 @@ from ..core import CaseResult, case_key
 ID = "C10"
 LEVEL = "model_checking"
 RULE = (
-    "op family: per (mesh, pinned-set) BFS to fixpoint over set_link_exponents histories on a 7-letter alphabet of "
-    "potentials (zero, uniform, uniform again as a new object, uniform*(1+5e-6), linear, wrapping, seeded per-edge) "
+    "op family: per (mesh, pinned-set) BFS to fixpoint over set_link_exponents histories on a 9-letter alphabet of "
+    "potentials (zero, uniform, uniform again as a new object, uniform*(1+5e-6), linear, wrapping, seeded per-edge, changed on half of the edges, changed on one edge) "
     "+ all histories of length <= depth without de-duplication; solver family: all scripts of per-step relative "
     "increments {0, 5e-6, 1e-3, 0.7} of a time-dependent field of length L, with and without screening. "
     "Non-trivial = history contains at least two different potentials."
@@ -29,7 +29,7 @@ ASSUMPTIONS = [
     "solver family observes the Laplacian passed to solve_for_psi_squared (documented static method) at call time",
 ]
 TOLERANCES = {"entry": 1e-14}
-ALPHABET = ["zero", "uni", "uni2", "uni_eps", "lin", "wrap", "rnd"]
+ALPHABET = ["zero", "uni", "uni2", "uni_eps", "lin", "wrap", "rnd", "half", "one_edge"]
 INCS = [0.0, 5e-6, 1e-3, 0.7]
 
 
@@ -115,6 +115,10 @@ def potentials(mesh, seed):
     rng = np.random.default_rng([seed, 1010])
     uni = np.tile(np.array([0.3, -0.2]), (n, 1))
     lin = 0.35 * np.column_stack([-c[:, 1], c[:, 0]])
+    half = uni.copy()
+    half[n // 2 :] = lin[n // 2 :]  # equals "uni" on half of the edges and "lin" on the others
+    one = uni.copy()
+    one[n // 3] = [1.7, -0.9]  # differs from "uni" on a single edge
     return {
         "zero": np.zeros((n, 2)),
         "uni": uni,
@@ -123,6 +127,8 @@ def potentials(mesh, seed):
         "lin": lin,
         "wrap": 40.0 * lin + 3.0,
         "rnd": rng.normal(size=(n, 2)),
+        "half": half,
+        "one_edge": one,
     }
 
 
